@@ -79,6 +79,7 @@ crate::harnesses! {
     #[cfg_attr(kani, kani::unwind(7))]
     fn tok_standard_len4() { tok_body!(lexical_util::format::STANDARD, 4, 0) }
 
+    /// @tier thorough
     /// parse_number::<STANDARD> == reference tokenizer; strings len <= 6 over {0-9 + - e E . a _}.
     /// @prop C10 C11 C12 C01 C16
     /// @feat default compact radix_format
